@@ -40,6 +40,9 @@ def one_run(sys_seed, np_seed, niter, opts, kind, tmp):
         xt = {str(v): rs.rand(nt) * (v.get_domain()[1] - v.get_domain()[0]) + v.get_domain()[0] for v in system.inputs()}
         yt = system.predict(xt, use_model='best', normalized_inputs=False)
         test_set = (xt, {k: np.asarray(v) for k, v in yt.items()})
+        if opts['test_set'] == 'partial' and len(yt) > 1:      # reference values for the last output only
+            last = list(yt.keys())[-1]
+            test_set = (xt, {last: np.asarray(yt[last])})
     sink = io.StringIO()
     if opts['log'] == 'stdout':
         with contextlib.redirect_stdout(sink), contextlib.redirect_stderr(sink):
@@ -102,6 +105,9 @@ def run(ctx: Ctx):
                 todo = todo + [{'test_set': 'large', 'save_interval': 0, 'plot_interval': 0, 'root_dir': False, 'log': 'none'}]
                 if n == 0:       # ... and once a test set of several thousand samples (start_test_check=1 so that it is evaluated from the first step on)
                     todo = todo + [{'test_set': 'huge', 'save_interval': 0, 'plot_interval': 0, 'root_dir': False, 'log': 'none'}]
+            # a test set that holds reference values for only some of the outputs, with and without a root directory (plots)
+            todo = todo + [{'test_set': 'partial', 'save_interval': 0, 'plot_interval': 1, 'root_dir': True, 'log': 'none'},
+                           {'test_set': 'partial', 'save_interval': 0, 'plot_interval': 0, 'root_dir': False, 'log': 'none'}]
             for opts in todo:
                 case = {'system_seed': sys_seed, 'kind': kind, 'numpy_seed': np_seed, 'iterations': niter, 'options': opts}
                 ctx.case(case, nontrivial=True, kind=kind)
